@@ -3,6 +3,7 @@ import SignaloModel.Proofs.DequeMin
 import SignaloModel.Proofs.DequeSuffix
 import SignaloModel.Proofs.OwnedDeque
 import SignaloModel.Proofs.DequeExact
+import SignaloModel.Proofs.DequeBracket
 /-!
 # C04 — Moving min/max/bounds equal the extrema of the last min(k,N) samples
 
@@ -11,6 +12,7 @@ The property theorems for C04: `#check` prints each statement, `#print axioms` i
 -/
 open SignaloModel
 
+#check @SignaloModel.Deque.minmax_bracket
 #check @SignaloModel.Deque.taps_exact_run
 #check @SignaloModel.Deque.taps_length_run
 #check @SignaloModel.Deque.taps_suffixMax_run
@@ -25,6 +27,7 @@ open SignaloModel
 #check @Deque.stepU_correct
 #check @Deque.tick_rel
 
+#print axioms SignaloModel.Deque.minmax_bracket
 #print axioms SignaloModel.Deque.taps_exact_run
 #print axioms SignaloModel.Deque.taps_length_run
 #print axioms SignaloModel.Deque.taps_suffixMax_run
